@@ -13,9 +13,9 @@ COQ_RUNNER = 'bad_phase'
 COQ_TYPES = ('nat * list nat * list nat * option (list nat) * option (list nat)', 'result (list (option Z))')
 SHARD = 150
 RULE = ('(a) cyclepoints from find_extrema / find_zerox on generated signals, boundary in {0,1,5}, first_extrema in {peak, trough, '
-        'None}, with and without midpoints; (b) every placement of alternating extrema (>= 2 samples apart, either kind first, '
+        'None}, with both / only rise / only decay / no midpoints; (b) every placement of alternating extrema (>= 2 samples apart, either kind first, '
         'extrema allowed on the first/last samples) on arrays up to length 9 (quick) / 11 (thorough), without midpoints and with '
-        'midpoints anywhere in their flank (coinciding with extrema included). non-trivial = >= 3 extrema')
+        'midpoints anywhere in their flank (coinciding with extrema included), optionally a midpoint before the first / after the last extremum, both or only one midpoint kind supplied. non-trivial = >= 3 extrema')
 EXHAUSTIVE = {'quick': True, 'thorough': True}
 ASSUMPTIONS = ['consecutive extrema at least two samples apart; peaks and troughs alternate',
                'model is exact rational arithmetic in units of pi/2; implementation values compared within 1e-6 of a quarter turn, '
@@ -47,12 +47,23 @@ def cases(rng, tier):
                         m = rng.randint(a, b)
                         a_is_peak = (k % 2 == 0) == first_peak
                         (decays if a_is_peak else rises).append(m)
-                    out.append({'kind': 'exhaustive/mid', 'n': n, 'peaks': peaks, 'troughs': troughs, 'rises': rises, 'decays': decays})
+                    # a midpoint may also precede the first / follow the last extremum (the flank to an extremum outside)
+                    if ext[0] > 0 and rng.random() < 0.5:
+                        m = rng.randint(0, ext[0] - 1)
+                        (rises if first_peak else decays).insert(0, m)
+                    if ext[-1] < n - 1 and rng.random() < 0.5:
+                        m = rng.randint(ext[-1] + 1, n - 1)
+                        last_is_peak = ((len(ext) - 1) % 2 == 0) == first_peak
+                        (decays if last_is_peak else rises).append(m)
+                    mode = rng.choice(['both', 'both', 'rises_only', 'decays_only'])
+                    out.append({'kind': 'exhaustive/mid/' + mode, 'n': n, 'peaks': peaks, 'troughs': troughs,
+                                'rises': None if mode == 'decays_only' else rises, 'decays': None if mode == 'rises_only' else decays})
     nsig = 70 if tier == 'quick' else 700
     for _ in range(nsig):
         s = gen.signal(rng, max_len=260)
         out.append({'kind': 'signal/' + s['kind'], 'sig': gen.hexlist(s['sig']), 'fs': s['fs'], 'f_range': list(s['f_range']),
-                    'boundary': rng.choice([0, 0, 1, 5]), 'first': rng.choice(['peak', 'trough', None]), 'mid': rng.random() < 0.6})
+                    'boundary': rng.choice([0, 0, 1, 5]), 'first': rng.choice(['peak', 'trough', None]),
+                    'mid': rng.choice(['both', 'both', 'none', 'rises_only', 'decays_only'])})
     return out
 
 
@@ -63,9 +74,13 @@ def _cps(c):
     sig = gen.unhexlist(c['sig'])
     p, t = find_extrema(sig, c['fs'], tuple(c['f_range']), boundary=c['boundary'], first_extrema=c['first'])
     r = d = None
-    if c['mid']:
+    if c['mid'] != 'none':
         r, d = find_zerox(sig, p, t)
         r, d = [int(x) for x in r], [int(x) for x in d]
+        if c['mid'] == 'rises_only':
+            d = None
+        elif c['mid'] == 'decays_only':
+            r = None
     return len(sig), [int(x) for x in p], [int(x) for x in t], r, d, sig
 
 
